@@ -10,20 +10,47 @@
   Model: `QV.Model.Include` (the include stack of `fs::Parser::next`).  Spec:
   `QV.Spec.Include.readFile` (recursive semantics, no stack).
 
-  PROVED
-   * the machine refines the recursive semantics, terminates, never panics
-     (`C25_machine_refines_spec`, `C25_total`); depth limit, context in / context out, origin
-     restored, path examples;
-   * three invariances of the in-memory parser, each by a chain over every function of its model:
-     compositionality at line ends (`C25_parse_append`, `C25_line_frame`), independence of the
-     line counter (`C25_line_shift`), reader outside parentheses after a reading
-     (`C25_ends_outside_parens`);
-   * from these, the literal "textual inclusion": for file trees of any nesting, cut at their
-     `$INCLUDE` lines, the records of the tree reading are the records of the flattened text, the
-     origin scoping emulated by `$ORIGIN` lines (`C25_flatten_tree_partial`,
-     `C25_flatten_machine_partial`, `C25_origin_line`); special cases
-     `C25_include_is_textual_partial`, `C25_flatten_one_partial`.
-  NOT PROVED: see "What is not proved" below.
+  ══ REPORT ══
+
+  PROVED (19 theorems; `_partial` = under the cut hypothesis below)
+   * the include-stack machine of `fs::Parser::next` yields exactly what the recursive semantics
+     `readTree` reports, for every file tree, resolver and depth limit, cyclic includes included
+     (`C25_machine_refines_spec`); it terminates and never panics (`C25_total`, `C25_fsBound`);
+   * the clauses of the property on the semantics: nesting deeper than the limit is the error
+     `IncludesTooDeep` at the directive's line (`C25_depth_limit`); the included file starts with
+     the includer's context, or the directive's origin (`C25_include_context`); the includer's
+     origin is restored, TTL / class / owner flow on (`C25_origin_restored`); relative paths
+     resolve against the including file's directory, absolute ones do not (`C25_path_examples`);
+   * three invariances of the in-memory parser, each by a chain over every function of its
+     model: compositionality at line ends (`C25_parse_append`, `C25_line_frame`,
+     `C25_file_of_records`), independence of the line counter (`C25_line_shift`), reader outside
+     parentheses after a complete reading (`C25_ends_outside_parens`);
+   * from these the literal "textual inclusion": for file trees of any nesting, cut at their
+     `$INCLUDE` lines, the records of the tree reading are the records of the flattened text —
+     each `$INCLUDE` line replaced by the included file's content, the origin scoping emulated by
+     `$ORIGIN` lines (`C25_origin_line`) — on the semantics (`C25_flatten_tree_partial`) and on
+     the machine (`C25_flatten_machine_partial`); one-level special cases
+     `C25_include_is_textual_partial`, `C25_flatten_one_partial`; `recsOfSY_tagged`.
+  ORACLE-ONLY (checked on every run, not proved)
+   * the flattening equation for trees that are NOT given cut at their `$INCLUDE` lines, and for
+     trees whose reading ends in an error: op `incflat` — the harness flattens the tree itself
+     and parses the single file with the real in-memory parser; the record lists must be equal;
+   * the tie of the model to src/zone_file/fs: temp-dir file trees with sub-directories,
+     relative and absolute paths, include origins, depth limits 0–5, runs of consecutive
+     includes, missing files (ops of group `include`).
+  RESTRICTIONS
+   * `C25_flatten_*_partial`: the tree comes cut at its `$INCLUDE` lines into pieces each of which
+     parses on its own and ends at a line end outside parentheses (`TreeOK`, checkable by
+     evaluation); deriving the cut from the text alone needs stability of the parser under
+     *replacing* a suffix of its input — the converse of the frame property, which is not its
+     mirror image (counter-example: the text `(` + newline) and was not pursued;
+   * `C25_machine_refines_spec`: `B` exceeds every openable file's size by 2 (termination
+     measure only) and the resolver never meets `.expect("including file's path has no
+     parent")` — true whenever the main path has a parent;
+   * file system and `std::path` (`Path::parent`, `Path::join`, `File::open` on Unix) are
+     modelled for regular files reached without symlinks; read errors (directories) are outside
+     the model; the in-memory parser's iterator semantics is C23/C24's model.
+  FINDINGS: none for this property.
 -/
 import QV.Proofs.Include
 import QV.Proofs.ZoneFile.Compose
